@@ -351,12 +351,29 @@ def run_case(spec):
     P, CA, dist, partners, names = file_truth(text)
     if any(abs(v - LIMIT) < 1e-6 for v in dist.values()) or any(c is None for c in CA):
         return res
+    # SSBOND header records: absent, naming the real pair, naming other residues (incomplete / stale header after a
+    # renumbering) - detection is geometric, the header is an annotation
+    hdr = rng.choice(["none", "none", "true", "stale", "other"])
+    if hdr != "none":
+        cysr = [a for a in items if isinstance(a, dict) and a["name"] == "SG"]
+        def ss(a, b, k=1):
+            return "SSBOND %3d CYS %1s %4d%1s   CYS %1s %4d%1s                       %6s %6s %5.2f" % (
+                k, a["chain"] or " ", a["resi"], a["icode"] or " ", b["chain"] or " ", b["resi"], b["icode"] or " ",
+                "1555", "1555", 2.03)
+        lines = []
+        if hdr == "true" and len(cysr) >= 2:
+            lines.append(ss(cysr[0], cysr[1]))
+        elif hdr == "stale" and len(cysr) >= 2:
+            lines.append(ss(dict(cysr[0], resi=cysr[0]["resi"] + 40), dict(cysr[1], resi=cysr[1]["resi"] + 40)))
+        elif hdr == "other":
+            lines.append(ss(dict(cysr[0], resi=777, chain="Q"), dict(cysr[0], resi=778, chain="Q")))
+        text = "\n".join(lines) + "\n" + text
     ff = common.FFS[spec["seed"] % 6]
     opts = [f"--ff={ff}"] + rng.choice([[], [], ["--noopt"], ["--nodebump"], ["--nodebump", "--noopt"]])
     r = pipeline.run(text, opts, workname="c13")
     res.count("placements")
     wit = {"d_requested": d, "distances": {f"{i}-{j}": round(v, 4) for (i, j), v in dist.items()}, "scheme": scheme,
-           "order": order, "positions": posA + posB, "decoy": decoy, "opts": opts, "seed": spec["seed"]}
+           "order": order, "positions": posA + posB, "decoy": decoy, "opts": opts, "seed": spec["seed"], "ssbond_header": hdr}
     if not r.ok:
         res.count("runs_failed")
         res.note(f"failed: {type(r.exc).__name__} {str(r.exc)[:80]} {wit}")
